@@ -56,6 +56,11 @@ pub struct PrefSpec {
     /// sleeps at every relation-store lock acquisition and completion check; Some(0) only counts
     #[serde(default)]
     pub perturb: Option<u64>,
+    /// verbosity level 1..3 (Info, Verbose, Debug) — the statement says "any preferences"; the progress and
+    /// diagnostic code behind a raised verbosity computes rates, formats relation sets and cycle statistics
+    /// and runs in every thread.  None = Silent.  (Worker processes have stderr closed.)
+    #[serde(default, skip_serializing_if = "Option::is_none")]
+    pub verbosity: Option<u8>,
 }
 
 impl PrefSpec {
@@ -91,7 +96,12 @@ impl FCase {
 
 fn build_prefs(p: &PrefSpec, polls: &Arc<AtomicU64>, first_true: &Arc<Mutex<Option<Instant>>>) -> Preferences {
     let mut prefs = Preferences::default();
-    prefs.verbosity = Verbosity::Silent;
+    prefs.verbosity = match p.verbosity {
+        None | Some(0) => Verbosity::Silent,
+        Some(1) => Verbosity::Info,
+        Some(2) => Verbosity::Verbose,
+        Some(_) => Verbosity::Debug,
+    };
     prefs.threads = p.threads;
     prefs.fb_size = p.fb_size;
     prefs.interval_size = p.interval_size;
@@ -761,8 +771,9 @@ pub fn prefs_strategy() -> impl Strategy<Value = PrefSpec> {
         prop_oneof![4 => Just(None), 1 => prop_oneof![Just(1u32), Just(2), Just(3), Just(8)].prop_map(|k| Some(k * 32768))],
         prop_oneof![4 => Just(None), 1 => prop_oneof![Just(1u64), Just(2), Just(5), Just(20), Just(100)].prop_map(Some)],
         prop_oneof![3 => Just(None), 1 => Just(Some(true)), 1 => Just(Some(false))],
+        prop_oneof![6 => Just(None), 1 => Just(Some(1u8)), 1 => Just(Some(2u8)), 1 => Just(Some(3u8))],
     )
-        .prop_map(|(threads, fbp, interval_size, large_factor, use_double)| PrefSpec {
+        .prop_map(|(threads, fbp, interval_size, large_factor, use_double, verbosity)| PrefSpec {
             threads,
             // fb_size is given as a percentage of the default here; resolved in `resolve_fb`
             fb_size: fbp,
@@ -772,6 +783,7 @@ pub fn prefs_strategy() -> impl Strategy<Value = PrefSpec> {
             abort_after: None,
             count_polls: false,
             perturb: None,
+            verbosity,
         })
 }
 
@@ -881,6 +893,9 @@ pub fn run_batch(
         }
         if c.prefs.threads.unwrap_or(1) > 1 {
             l.label("prefs:threads>1");
+        }
+        if c.prefs.verbosity.unwrap_or(0) > 0 {
+            l.label("prefs:verbose");
         }
         if is_nontrivial(c) {
             l.nontrivial(crate::engine::hash64(&(profile, c.key())));
